@@ -23,8 +23,13 @@ def lib():
     return S
 
 
+def lab(x):
+    """'pos' / 'neg' of a label field, whether it holds a BinaryLabel member or (assigned after construction) a plain string."""
+    return getattr(x, "value", x)
+
+
 def cfg_of(s):
-    return s.score_class.value, s.equal_class.value
+    return lab(s.score_class), lab(s.equal_class)
 
 
 def finite_arr(a):
@@ -1442,7 +1447,7 @@ GROUP_RATE_NAMES = ["group_" + n for n in RATE_NAMES]
 
 def _obj_state(s):
     st = [np.asarray(s.pos).tobytes(), str(np.asarray(s.pos).dtype), np.asarray(s.pos).shape, np.asarray(s.neg).tobytes(), str(np.asarray(s.neg).dtype),
-          np.asarray(s.neg).shape, s.nb_easy_pos, s.nb_easy_neg, s.score_class.value, s.equal_class.value]
+          np.asarray(s.neg).shape, s.nb_easy_pos, s.nb_easy_neg, lab(s.score_class), lab(s.equal_class)]
     if hasattr(s, "pos_groups"):
         st += [np.asarray(s.pos_groups).tobytes(), np.asarray(s.neg_groups).tobytes(), np.asarray(s.groups).tobytes()]
     return st
